@@ -20,6 +20,11 @@
 (*        consumed, ssame), decoded by the generic decoder (gacc), driven  *)
 (*        through the entry points (ent), with allocation and panic.       *)
 (*  gen : bytes b were decoded by the generic decoder only.                *)
+(*  encbig : a real object with a byte field of L bytes was encoded        *)
+(*        (compressed encoding bc, length len), decoded and compared.      *)
+(*  seqinit / seq : a step of a stateful sequence on a mutable container;  *)
+(*        at check points the object's encoding and view next to those of  *)
+(*        a fresh object built from the model's content.                   *)
 (*  big : a large input given by a descriptor was decoded into type ty by  *)
 (*        DecodeBytes (d), by a stream without input limit (u) and by the  *)
 (*        generic decoder (g): accepted, allocation, bytes consumed.       *)
@@ -28,8 +33,9 @@ EXTENDS Rlp
 
 TraceLog == ndJsonDeserialize("trace.ndjson")
 
-VARIABLES l, viol, fired
-mvars == <<c, l, viol, fired>>
+VARIABLES l, viol, fired,
+          cont      \* the model content of the container of the current stateful sequence (folded with SeqApply)
+mvars == <<c, l, viol, fired, cont>>
 
 \* "never allocates far beyond the input size": a measured resource bound.  What a decoder may spend is bounded by the
 \* bytes it CONSUMED before it returned (for an accepted input: all of them; for a rejected one: the prefix it looked at),
@@ -43,7 +49,8 @@ AllocK == 16384
 \* entry points that read the node's own database are not "hostile input" entry points: only NoPanic is asked of them
 DiskEntry == {"ReadVoteData", "rawdb.ReadBody"}
 
-Clauses == {"RoundTrip", "EncodeDeterministic", "AcceptImpliesCanonical", "OneHash", "GenericAgrees", "NoPanic", "RejectNotCrash", "AllocBounded"}
+Clauses == {"RoundTrip", "EncodeDeterministic", "EncodeCanonical", "OneEncoding", "AcceptImpliesCanonical", "OneHash", "GenericAgrees", "NoPanic",
+            "RejectNotCrash", "AllocBounded"}
 
 \* discriminator of an input that was accepted although it is not THE encoding of a value
 Class(ty, s, p) ==
@@ -102,6 +109,31 @@ BigV(e, ln) ==
       \cup UNION { IF Over(x[2].alloc, x[2].cons) THEN {<<"AllocBounded", {e.ty, "big", e.kind, x[1], IF x[2].acc THEN "accepted" ELSE "rejected"}, ln>>} ELSE {}
                    : x \in { <<"bytes", e.d>>, <<"unlimited_stream", e.u>>, <<"generic", e.g>> } }
 
+\* The encode side at the header-class boundaries.  b0 is the encoding of a real object whose byte field holds the marker
+\* (three fill bytes); bc is the compressed encoding of the same object with L fill bytes in that field.
+\* "equal objects have one encoding": the encoder's output is THE encoding of the value (EncC predicts it from b0 and L),
+\* and "decoding its encoding yields an equal value".
+EncBigV(e, ln) ==
+   LET s == Schema(e.ty)
+       p0 == Parse(e.b0)
+       path == IF p0.ok THEN MarkerPath(p0.it, e.fill) ELSE <<0>>
+   IN PanicV(e, ln) \cup
+      (IF e.pan # "" \/ ~p0.ok \/ path = <<0>> \/ ~Match(s, p0.it, TRUE) THEN {}     \* not a usable descriptor: nothing is claimed
+       ELSE LET big == Subst(p0.it, path, Virt(e.fill, e.L)) IN
+            (IF e.bc # EncC(big) \/ e.len # SizeC(big) THEN {<<"EncodeCanonical", {e.ty, "string_of_" \o ToString(e.L)}, ln>>} ELSE {})
+            \cup (IF ~(e.acc /\ e.same /\ e.deq # "no")
+                  THEN {<<"RoundTrip", {e.ty, "string_of_" \o ToString(e.L), IF ~e.acc THEN "rejected" ELSE IF ~e.same THEN "reencoding_differs" ELSE "not_equal"}, ln>>}
+                  ELSE {}))
+
+\* Stateful sequences: at a check point the object that went through the sequence encodes (and lists) exactly as a fresh
+\* object with the model's content q ("equal objects have one encoding").
+SetOfSeq2(q) == { q[i] : i \in DOMAIN q }
+SeqV(e, q, ln) ==
+   PanicV(e, ln) \cup
+   (IF e.chk /\ e.pan = "" /\ e.enc # e.fenc THEN {<<"OneEncoding", {e.ty, "stateful", "encoding_differs_from_fresh"}, ln>>} ELSE {})
+   \cup (IF e.chk /\ e.pan = "" /\ e.hasview /\ ~(e.view = e.fview /\ SetOfSeq2(e.view) = SetOfSeq2(q))
+         THEN {<<"OneEncoding", {e.ty, "stateful", "view_differs_from_content"}, ln>>} ELSE {})
+
 DecV(e, ln) == LET s == Schema(e.ty)
                    d == ParseFirst(e.b)                                     \* first item
                    p == IF d.ok /\ d.nx = Len(e.b) + 1 THEN d ELSE BadDec   \* = Parse(e.b)
@@ -124,7 +156,12 @@ RtV(e, ln) == LET s == Schema(e.ty) p == Parse(e.b) IN
 DetV(e, ln) == LET s == Schema(e.ty) p == Parse(e.b) IN
    PanicV(e, ln) \cup (IF e.pan = "" /\ e.nenc # 1 THEN {<<"EncodeDeterministic", Class(e.ty, s, p) \ {"reencoding_differs"}, ln>>} ELSE {})
 
+NextCont(e) == CASE e.ev = "seqinit" -> e.init
+                  [] e.ev = "seq" -> SeqApply(e.op, e.x, cont)
+                  [] OTHER -> cont
 Judge(e, ln) == CASE e.ev = "dec" -> DecV(e, ln)
+                  [] e.ev = "encbig" -> EncBigV(e, ln)
+                  [] e.ev = "seq" -> SeqV(e, NextCont(e), ln)
                   [] e.ev = "gen" -> GenV(e, ln)
                   [] e.ev = "rt"  -> RtV(e, ln)
                   [] e.ev = "det" -> DetV(e, ln)
@@ -133,21 +170,24 @@ Judge(e, ln) == CASE e.ev = "dec" -> DecV(e, ln)
 
 \* how often the antecedent of each clause held
 Fire(e) == [k \in Clauses |->
-   CASE k = "RoundTrip" -> IF e.ev = "rt" THEN 1 ELSE 0
+   CASE k = "RoundTrip" -> IF e.ev \in {"rt", "encbig"} THEN 1 ELSE 0
+     [] k = "EncodeCanonical" -> IF e.ev = "encbig" THEN 1 ELSE 0
+     [] k = "OneEncoding" -> IF e.ev = "seq" /\ e.chk THEN 1 ELSE 0
      [] k = "EncodeDeterministic" -> IF e.ev = "det" THEN 1 ELSE 0
      [] k = "AcceptImpliesCanonical" -> IF e.ev = "dec" THEN (IF e.acc THEN 1 ELSE 0) + (IF e.sacc THEN 1 ELSE 0)
                                         ELSE IF e.ev = "big" THEN (IF e.d.acc THEN 1 ELSE 0) + (IF e.u.acc THEN 1 ELSE 0) ELSE 0
      [] k = "OneHash" -> IF e.ev = "dec" /\ e.acc /\ e.oh1 # "" THEN 1 ELSE 0
      [] k = "GenericAgrees" -> IF e.ev \in {"dec", "gen", "big"} THEN 1 ELSE 0
-     [] k = "NoPanic" -> IF e.ev \in {"dec", "gen", "rt", "det", "big"} THEN 1 ELSE 0
+     [] k = "NoPanic" -> IF e.ev \in {"dec", "gen", "rt", "det", "big", "encbig", "seq"} THEN 1 ELSE 0
      [] k = "RejectNotCrash" -> IF e.ev = "dec" THEN Len(e.ent) ELSE 0
      [] k = "AllocBounded" -> IF e.ev = "dec" THEN 2 ELSE IF e.ev = "gen" THEN 1 ELSE IF e.ev = "big" THEN 3 ELSE 0]
 
-MInit == c = 0 /\ l = 1 /\ viol = {} /\ fired = [k \in Clauses |-> 0]
+MInit == c = 0 /\ l = 1 /\ viol = {} /\ fired = [k \in Clauses |-> 0] /\ cont = <<>>
 Step == /\ l <= Len(TraceLog)
         /\ l' = l + 1
         /\ viol' = viol \cup Judge(TraceLog[l], l)
         /\ fired' = LET f == Fire(TraceLog[l]) IN [k \in Clauses |-> fired[k] + f[k]]
+        /\ cont' = NextCont(TraceLog[l])
         /\ UNCHANGED c
 MSpec == MInit /\ [][Step]_mvars
 \* the trace is one linear behaviour: the line number identifies the state (keeps the growing `viol` out of the fingerprint)
